@@ -4,7 +4,10 @@
       tracing/src/span.rs        Span::{new,new_root,child_of,none,new_disabled,current,or_current,enter,entered,
                                  in_scope,record,follows_from}, Inner = (Id, Dispatch), Clone for Inner (clone_span),
                                  Drop for Span (try_close), Drop for Entered / EnteredSpan (do_exit), EnteredSpan::exit
-      tracing/src/instrument.rs  Instrumented::{poll, PinnedDrop, into_inner}   (tracing-futures: same shape)
+      tracing/src/instrument.rs  Instrumented::{poll, PinnedDrop, into_inner, span, span_mut, inner, inner_mut,
+                                 inner_pin_ref, inner_pin_mut}, derive(Clone) for Instrumented,
+                                 WithCollector::{with_collector, with_current_collector}, WithDispatch::poll
+                                 (tracing-futures: same shapes)
       tracing/src/macros.rs      span!: the enabled branch calls Span::new / child_of, the disabled branch returns
       tracing/src/lib.rs         MacroCallsite::disabled_span() = Span::none()  (the `log` feature is off)
 
@@ -37,7 +40,17 @@ Inductive sval :=
 | SNoColl                    (* inner = Some(0xDEAD, Dispatch::none()): made by Span::new* under no default *)
 | SSpan (i : sid) (c : cid). (* inner = Some(id, dispatch of collector c), c <> 0 *)
 
-Inductive parent := PRoot | PCtx | PExp (r : name).
+Inductive parent := PRoot | PCtx
+                  | PExp (r : name)      (* parent: &span *)
+                  | PExpId (r : name)    (* parent: span.id()   (an Option<Id>) *)
+                  | PNoneId.             (* Span::child_of(None, ..) / span!(parent: None, ..): a root *)
+Definition parent_ref (p : parent) : option name := match p with PExp r | PExpId r => Some r | _ => None end.
+Inductive fsrc := FSpan (r' : name)      (* r.follows_from(&r') *)
+                | FId (r' : name)        (* r.follows_from(r'.id()) *)
+                | FNone.                 (* r.follows_from(None::<Id>) *)
+Inductive futw := WNone                  (* fut.instrument(span) *)
+                | WWith (c : cid)        (* fut.with_collector(c).instrument(span): Instrumented<WithDispatch<_>> *)
+                | WCurrent.              (* fut.with_current_collector().instrument(span) *)
 Inductive how := ViaMacro (en : bool)   (* span!: `en` is the default collector's answer to enabled() *)
                | Direct.                (* Span::new / new_root / child_of called directly *)
 Inductive pollres := Pending | Ready | Panicked.
@@ -54,9 +67,14 @@ Inductive action :=
 | ExitOwned (n : name)               (* n = n.exit() *)
 | ScopeBegin (r : name)              (* r.in_scope(|| { ... *)
 | ScopeEnd (unwind : bool)           (*   ... })   returning or unwinding *)
-| Record (r : name)
-| FollowsFrom (r r' : name)          (* r.follows_from(&r') *)
-| Instrument (n : name) (flavour : bool)   (* n = fut.instrument(n); flavour: tracing / tracing-futures (same model) *)
+| Record (r : name) (ks : list bool) (* r.record(f1, _).record(f2, _)...: one call per element; false = no such field *)
+| FollowsFrom (r : name) (src : fsrc)
+| Query (r : name) (q : N)           (* r.is_none() / is_disabled() / id() / metadata().is_some()   (q = 0..3) *)
+| Instrument (n : name) (flavour : bool) (w : futw)  (* n = fut.instrument(n); flavour: tracing / tracing-futures (same model) *)
+| WithCollector (f : name) (c : option cid)  (* f = f.with_collector(c) / f.with_current_collector(): WithDispatch<Instrumented<_>> *)
+| InnerAccess (f : name) (k : N)     (* f.inner() / inner_mut() / inner_pin_ref() / inner_pin_mut() (k = 0..3): no enter *)
+| SpanMutSwap (f n : name)           (* mem::swap(f.span_mut(), &mut n) *)
+| CloneFut (f n : name)              (* n = f.clone()   (derive(Clone) for Instrumented / WithDispatch) *)
 | PollBegin (f : name)               (* Pin::new(&mut f).poll(cx) { ... *)
 | PollEnd (res : pollres)            (*   ... } *)
 | IntoInner (f : name)               (* drop(f.into_inner()) *)
@@ -71,7 +89,7 @@ Inductive pobs := ORoot | OCtx | OExp (pid : sid).
 Inductive call :=
 | CNew (i : sid) (par : pobs) | CClone (i : sid) | CClose (i : sid) | CEnter (i : sid) | CExit (i : sid)
 | CRecord (i : sid) | CFollows (i from : sid).
-Inductive mark := MBody (f : name) | MInnerDrop (f : name).
+Inductive mark := MBody (f : name) | MInnerDrop (f : name) | MInnerTouch (f : name).
 Inductive entry := ECall (c : cid) (t : tid) (k : call) | EMark (t : tid) (m : mark).
 
 Definition subject (k : call) : sid :=
@@ -80,7 +98,8 @@ Definition subject (k : call) : sid :=
 (** * Ownership state (static) *)
 Inductive ekind := EGuard (g : name) | EScope | EPoll | EOwned | ETmp.
 Record ent := mkEnt { e_kind : ekind; e_holder : name; e_tid : tid }.
-Inductive hkind := KHandle | KFut.
+Inductive hkind := KHandle | KFut
+                 | KFutW (inside : bool).  (* false: WithDispatch<Instrumented<F>>, true: Instrumented<WithDispatch<F>> *)
 Record own := mkOwn { o_holders : list (name * hkind); o_ents : list ent (* newest first *) }.
 
 Definition ekind_eqb (a b : ekind) : bool :=
@@ -131,13 +150,17 @@ Inductive micro :=
 | MFollows (r r' : name) (t : tid)
 | MMark (t : tid) (m : mark)
 | MPushDefault (t : tid) (c : cid)
-| MPopDefault (t : tid).
+| MPopDefault (t : tid)
+| MSetDisp (f : name) (t : tid) (c : option cid)  (* the Dispatch a WithDispatch wrapper captures (None: the current default) *)
+| MPushDisp (t : tid) (f : name)       (* WithDispatch::poll: set_default(&self.dispatch) *)
+| MCopyDisp (f n : name)
+| MSwap (a b : name).                  (* two Span values change places *)
 
 (** Ownership effect; [None] = a precondition the balance argument relies on does not hold. *)
 Definition mo (m : micro) (o : own) : option own :=
   match m with
   | MNewSpan n _ _ p =>
-      if negb (live o n) && match p with PExp r => live o r | _ => true end
+      if negb (live o n) && match parent_ref p with Some r => live o r | None => true end
       then Some (mkOwn ((n, KHandle) :: o_holders o) (o_ents o)) else None
   | MCloneTo r n _ =>
       if live o r && negb (live o n) then Some (mkOwn ((n, KHandle) :: o_holders o) (o_ents o)) else None
@@ -150,18 +173,27 @@ Definition mo (m : micro) (o : own) : option own :=
   | MExitE e => if mem_ent e (o_ents o) then Some (mkOwn (o_holders o) (remove_ent e (o_ents o))) else None
   | MRecord r _ => if live o r then Some o else None
   | MFollows r r' _ => if live o r && live o r' then Some o else None
-  | MMark _ _ | MPushDefault _ _ | MPopDefault _ => Some o
+  | MMark _ _ | MPushDefault _ _ | MPopDefault _ | MPushDisp _ _ | MCopyDisp _ _ => Some o
+  | MSetDisp f _ _ => if live o f then Some o else None
+  | MSwap a b => if free o a && free o b && negb (a =? b) then Some o else None
   end.
 
 (** * What rustc accepts: an action of thread [t] in ownership state [o] expands to micro-actions, or is rejected. *)
 Definition kind_of (o : own) (n : name) : option hkind := lookup (o_holders o) n.
 Definition is_handle (o : own) (n : name) : bool := match kind_of o n with Some KHandle => true | _ => false end.
 Definition is_fut (o : own) (n : name) : bool := match kind_of o n with Some KFut => true | _ => false end.
+Definition is_anyfut (o : own) (n : name) : bool :=
+  match kind_of o n with Some KFut | Some (KFutW _) => true | _ => false end.
+(** thread t is inside the poll of a WithDispatch-wrapped future: the wrapper's DefaultGuard sits in that stack frame, so
+    the thread's default scopes may not be opened / closed underneath it (out-of-order DefaultGuard drops are C02's) *)
+Definition in_wd_poll (o : own) (t : tid) : bool :=
+  existsb (fun e => (e_tid e =? t) && match e_kind e with EPoll => true | _ => false end &&
+                    match kind_of o (e_holder e) with Some (KFutW _) => true | _ => false end) (o_ents o).
 
 Definition compile (o : own) (t : tid) (a : action) : option (list micro) :=
   match a with
   | New n h p =>
-      if negb (live o n) && match p with PExp r => readable o r | _ => true end
+      if negb (live o n) && match parent_ref p with Some r => readable o r | None => true end
       then Some [MNewSpan n t h p] else None
   | Clone r n => if readable o r && negb (live o n) then Some [MCloneTo r n t] else None
   | Current n => if negb (live o n) then Some [MCurrentTo n t] else None
@@ -173,7 +205,8 @@ Definition compile (o : own) (t : tid) (a : action) : option (list micro) :=
           match e_kind e with
           | EOwned => if e_tid e =? t then Some [MExitE e; MRelease n t] else None   (* EnteredSpan is !Send *)
           | _ => None end
-      | Some KFut, [] =>
+      | Some KHandle, _ => None
+      | Some _, [] =>                       (* an Instrumented future, WithDispatch-wrapped or not *)
           let e := mkEnt ETmp n t in
           Some [MEnterE e; MMark t (MInnerDrop n); MExitE e; MRelease n t]
       | _, _ => None
@@ -195,17 +228,56 @@ Definition compile (o : own) (t : tid) (a : action) : option (list micro) :=
       match top_frame o t with
       | Some e => match e_kind e with EScope => Some [MExitE e] | _ => None end
       | None => None end
-  | Record r => if readable o r then Some [MRecord r t] else None
-  | FollowsFrom r r' => if readable o r && readable o r' then Some [MFollows r r' t] else None
-  | Instrument n _ => if is_handle o n && free o n then Some [MSetKind n KFut] else None
-  | PollBegin f => if is_fut o f && free o f then Some [MEnterE (mkEnt EPoll f t); MMark t (MBody f)] else None
+  | Record r ks => if readable o r then Some (map (fun _ => MRecord r t) (filter (fun b => b) ks)) else None
+  | FollowsFrom r src =>
+      match src with
+      | FSpan r' | FId r' => if readable o r && readable o r' then Some [MFollows r r' t] else None
+      | FNone => if readable o r then Some [] else None
+      end
+  | Query r _ => if readable o r then Some [] else None
+  | Instrument n _ w =>
+      if is_handle o n && free o n then
+        Some match w with
+             | WNone => [MSetKind n KFut]
+             | WWith c => [MSetKind n (KFutW true); MSetDisp n t (Some c)]
+             | WCurrent => [MSetKind n (KFutW true); MSetDisp n t None]
+             end
+      else None
+  | WithCollector f c => if is_fut o f && free o f then Some [MSetKind f (KFutW false); MSetDisp f t c] else None
+  | PollBegin f =>
+      if free o f then
+        let e := mkEnt EPoll f t in
+        match kind_of o f with
+        | Some KFut => Some [MEnterE e; MMark t (MBody f)]
+        | Some (KFutW false) => Some [MPushDisp t f; MEnterE e; MMark t (MBody f)]
+        | Some (KFutW true) => Some [MEnterE e; MPushDisp t f; MMark t (MBody f)]
+        | _ => None
+        end
+      else None
   | PollEnd _ =>
       match top_frame o t with
-      | Some e => match e_kind e with EPoll => Some [MExitE e] | _ => None end
+      | Some e =>
+          match e_kind e with
+          | EPoll =>
+              match kind_of o (e_holder e) with
+              | Some (KFutW false) => Some [MExitE e; MPopDefault t]
+              | Some (KFutW true) => Some [MPopDefault t; MExitE e]
+              | _ => Some [MExitE e]
+              end
+          | _ => None end
       | None => None end
-  | IntoInner f => if is_fut o f && free o f then Some [MRelease f t; MMark t (MInnerDrop f)] else None
-  | SetDefault c => Some [MPushDefault t c]
-  | CloseScope => Some [MPopDefault t]
+  | IntoInner f => if is_anyfut o f && free o f then Some [MRelease f t; MMark t (MInnerDrop f)] else None
+  | InnerAccess f k =>
+      if is_anyfut o f && (if N.even k then readable o f else free o f) then Some [MMark t (MInnerTouch f)] else None
+  | SpanMutSwap f n =>
+      if is_anyfut o f && free o f && is_handle o n && free o n then Some [MSwap f n] else None
+  | CloneFut f n =>
+      match kind_of o f with
+      | Some KHandle | None => None
+      | Some k => if readable o f && negb (live o n) then Some [MCloneTo f n t; MSetKind n k; MCopyDisp f n] else None
+      end
+  | SetDefault c => if in_wd_poll o t then None else Some [MPushDefault t c]
+  | CloseScope => if in_wd_poll o t then None else Some [MPopDefault t]
   end.
 
 Fixpoint oexec (ms : list micro) (o : own) : option own :=
@@ -227,20 +299,26 @@ Record dyn := mkDyn {
   d_next : sid;                      (* the collectors' shared id counter (ids of different collectors are disjoint) *)
   d_log : list entry;                (* NEWEST FIRST *)
   d_made : list key;                 (* ghost: one element per Span value with an enabled inner that came into existence *)
-  d_dropped : list key               (* ghost: one element per such value dropped *)
+  d_dropped : list key;              (* ghost: one element per such value dropped *)
+  d_disp : list (name * cid)         (* the Dispatch captured by the WithDispatch wrapper of a future *)
 }.
 
 Definition val_of (d : dyn) (n : name) : sval := match lookup (d_vals d) n with Some v => v | None => SNone end.
 Definition set_val (d : dyn) (n : name) (v : sval) : dyn :=
-  mkDyn ((n, v) :: d_vals d) (d_defaults d) (d_next d) (d_log d) (d_made d) (d_dropped d).
+  mkDyn ((n, v) :: d_vals d) (d_defaults d) (d_next d) (d_log d) (d_made d) (d_dropped d) (d_disp d).
 Definition emit (d : dyn) (e : entry) : dyn :=
-  mkDyn (d_vals d) (d_defaults d) (d_next d) (e :: d_log d) (d_made d) (d_dropped d).
+  mkDyn (d_vals d) (d_defaults d) (d_next d) (e :: d_log d) (d_made d) (d_dropped d) (d_disp d).
 Definition note_made (d : dyn) (v : key) : dyn :=
-  mkDyn (d_vals d) (d_defaults d) (d_next d) (d_log d) (v :: d_made d) (d_dropped d).
+  mkDyn (d_vals d) (d_defaults d) (d_next d) (d_log d) (v :: d_made d) (d_dropped d) (d_disp d).
 Definition note_dropped (d : dyn) (v : key) : dyn :=
-  mkDyn (d_vals d) (d_defaults d) (d_next d) (d_log d) (d_made d) (v :: d_dropped d).
+  mkDyn (d_vals d) (d_defaults d) (d_next d) (d_log d) (d_made d) (v :: d_dropped d) (d_disp d).
 Definition cur_default (d : dyn) (t : tid) : cid :=
   match lookup (d_defaults d) t with Some c => c | None => 0 end.
+Definition disp_of (d : dyn) (f : name) : cid := match lookup (d_disp d) f with Some c => c | None => 0 end.
+Definition with_defaults (d : dyn) (x : list (tid * cid)) : dyn :=
+  mkDyn (d_vals d) x (d_next d) (d_log d) (d_made d) (d_dropped d) (d_disp d).
+Definition with_disp (d : dyn) (x : list (name * cid)) : dyn :=
+  mkDyn (d_vals d) (d_defaults d) (d_next d) (d_log d) (d_made d) (d_dropped d) x.
 
 (** The abstract collector's `current_span` on thread t: the innermost span it was told is entered there
     (`exit` removes the most recent occurrence). *)
@@ -279,11 +357,12 @@ Definition md (m : micro) (d : dyn) : dyn :=
       else
         let po := match p with
                   | PRoot => ORoot | PCtx => OCtx
-                  | PExp r => match id_of_val (val_of d r) with Some j => OExp j | None => ORoot end
+                  | PExp r | PExpId r => match id_of_val (val_of d r) with Some j => OExp j | None => ORoot end
+                  | PNoneId => ORoot
                   end in
         let i := d_next d in
         let d1 := emit d (ECall c t (CNew i po)) in
-        let d2 := mkDyn (d_vals d1) (d_defaults d1) (i + 1) (d_log d1) ((i, c) :: d_made d1) (d_dropped d1) in
+        let d2 := mkDyn (d_vals d1) (d_defaults d1) (i + 1) (d_log d1) ((i, c) :: d_made d1) (d_dropped d1) (d_disp d1) in
         set_val d2 n (SSpan i c)
   | MCloneTo r n t =>
       match val_of d r with
@@ -309,12 +388,16 @@ Definition md (m : micro) (d : dyn) : dyn :=
       | _, _ => d
       end
   | MMark t m => emit d (EMark t m)
-  | MPushDefault t c => mkDyn (d_vals d) ((t, c) :: d_defaults d) (d_next d) (d_log d) (d_made d) (d_dropped d)
-  | MPopDefault t => mkDyn (d_vals d) (remove_name t (d_defaults d)) (d_next d) (d_log d) (d_made d) (d_dropped d)
+  | MPushDefault t c => with_defaults d ((t, c) :: d_defaults d)
+  | MPopDefault t => with_defaults d (remove_name t (d_defaults d))
+  | MSetDisp f t oc => with_disp d ((f, match oc with Some c => c | None => cur_default d t end) :: d_disp d)
+  | MPushDisp t f => with_defaults d ((t, disp_of d f) :: d_defaults d)
+  | MCopyDisp f n => with_disp d ((n, disp_of d f) :: d_disp d)
+  | MSwap a b => let va := val_of d a in let vb := val_of d b in set_val (set_val d a vb) b va
   end.
 
 Definition state := (own * dyn)%type.
-Definition d_init : dyn := mkDyn [] [] 1 [] [] [].
+Definition d_init : dyn := mkDyn [] [] 1 [] [] [] [].
 Definition s_init : state := (o_init, d_init).
 
 Fixpoint exec (ms : list micro) (s : state) : option state :=
@@ -348,10 +431,21 @@ Definition enc_entry (e : entry) : N * N * N * N * N * N :=
       end
   | EMark t (MBody f) => (0, t, 8, f, 0, 0)
   | EMark t (MInnerDrop f) => (0, t, 9, f, 0, 0)
+  | EMark t (MInnerTouch f) => (0, t, 10, f, 0, 0)
   end.
 Definition produced (a : action) : option name :=
-  match a with New n _ _ | Clone _ n | Current n | OrCurrent n | ExitOwned n => Some n | _ => None end.
+  match a with New n _ _ | Clone _ n | Current n | OrCurrent n | ExitOwned n | CloneFut _ n | SpanMutSwap _ n => Some n
+  | _ => None end.
 Definition enc_id (v : sval) : N := match id_of_val v with Some i => i + 1 | None => 0 end.
+Definition b2N (b : bool) : N := if b then 1 else 0.
+(** the answers of the pure accessors (the `log` feature is off: every inner-less Span the API hands out is Span::none()) *)
+Definition query_res (v : sval) (q : N) : N :=
+  match q with
+  | 0 => b2N (match v with SNone => true | _ => false end)          (* is_none *)
+  | 1 => b2N (match v with SNone => true | _ => false end)          (* is_disabled *)
+  | 2 => enc_id v                                                    (* id *)
+  | _ => b2N (match v with SNone => false | _ => true end)          (* metadata().is_some() *)
+  end.
 
 Definition firstn_new (older : nat) (l : list entry) : list entry :=
   (* the entries of l (newest first) in front of its last [older] ones, returned oldest first *)
@@ -365,7 +459,10 @@ Fixpoint obs_from (s : state) (p : prog) : list (list (N * N * N * N * N * N) * 
       | None => ([], false)
       | Some s' =>
           let new := firstn_new (length (d_log (snd s))) (d_log (snd s')) in
-          let res := match produced (snd x) with Some n => enc_id (val_of (snd s') n) | None => 0 end in
+          let res := match snd x with
+                     | Query r q => query_res (val_of (snd s') r) q
+                     | a => match produced a with Some n => enc_id (val_of (snd s') n) | None => 0 end
+                     end in
           let (rest, ok) := obs_from s' p' in
           ((map enc_entry new, res) :: rest, ok)
       end
